@@ -51,7 +51,7 @@ theorem terminal_state_clean (acts : List Act) (s : St) (h : runActs {} acts = s
     cases hc : s.chan with
     | nil => rfl
     | cons c r =>
-      rcases hterm .drain with h1 | h1
+      rcases hterm (.drain c) with h1 | h1
       · simp [step, hex, hc] at h1
       · cases h1
   -- no handler active: `finish` / `pipeStart` / `pipeSend` would be enabled
@@ -89,7 +89,7 @@ theorem terminal_state_clean (acts : List Act) (s : St) (h : runActs {} acts = s
   | queued => have := (inv.queued_mem c).mp hp; rw [hch] at this; cases this
 
 /-! non-vacuity: a run in which one connection is delivered and another closed at shutdown -/
-example : ((runActs {} [.accept 0, .accept 1, .pipeStart 0, .pipeSend 0, .consume, .pipeStart 1, .pipeSend 1, .close, .loopExit, .drain, .closeChan]).map
+example : ((runActs {} [.accept 0, .accept 1, .pipeStart 0, .pipeSend 0, .consume 0, .pipeStart 1, .pipeSend 1, .close, .loopExit, .drain 1, .closeChan]).map
     fun s => (s.delivered 0, s.closed 1, s.chanClosed)) = some (1, 1, true) := by decide
 
 end L4.C13
